@@ -156,13 +156,85 @@ fn level_change(rep: &mut Report, rng: &mut Rng) {
     window_oracle(rep, &cfg, &out, &plain, &det, true);
 }
 
+/// A compressor created with a reduced window that is used for one stream, reset(), and used
+/// again: the second stream must respect the declared window exactly like the first.
+fn reuse_after_reset(rep: &mut Report, rng: &mut Rng, k: u64) {
+    let cfg = Config { level: (k % 11) as u8, strategy: STRATEGIES[((k / 11) % 5) as usize], zlib: true, wbits: 8 + ((k / 55) % 8) as u8 };
+    let mut c = cfg.make();
+    let mut log = format!("with_params({}); ", cfg.describe());
+    let streams = 2 + rng.below(2);
+    for si in 0..streams {
+        let plain = if si == 0 && rng.bool() {
+            let n = rng.size_biased(60_000);
+            let cls = rng.below(data::NUM_CLASSES);
+            data::gen(rng, cls, n)
+        } else {
+            far_repeat(rng, cfg.wbits.min(14))
+        };
+        // the first stream is sometimes abandoned half-way
+        let abandon = si == 0 && rng.chance(1, 3);
+        let upto = if abandon { rng.below(plain.len() + 1) } else { plain.len() };
+        let mut out = Vec::new();
+        let mut obuf = vec![0u8; 200_000];
+        let mut pos = 0usize;
+        let mut guard = 0;
+        let mut done = false;
+        loop {
+            guard += 1;
+            if guard > 10_000 {
+                return;
+            }
+            let flush = if abandon { TDEFLFlush::None } else { TDEFLFlush::Finish };
+            let r = match catch(|| compress(&mut c, &plain[pos..upto], &mut obuf, flush)) {
+                Ok(r) => r,
+                Err(p) => {
+                    rep.violation(&format!("C11:panic:{}", p.site_file()), p.text, Json::s(&log));
+                    return;
+                }
+            };
+            pos += r.1;
+            out.extend_from_slice(&obuf[..r.2]);
+            if r.0 == TDEFLStatus::Done {
+                done = true;
+                break;
+            }
+            if r.0 != TDEFLStatus::Okay {
+                return;
+            }
+            if abandon && pos == upto && r.2 < obuf.len() {
+                break;
+            }
+        }
+        log += &format!("stream {}: {} bytes{}; ", si + 1, upto, if abandon { " (abandoned)" } else { "" });
+        rep.eval();
+        if done {
+            rep.count(if si == 0 { "reuse_first_streams" } else { "reuse_streams_after_reset" });
+            let lg = log.clone();
+            let det = |note: &str| Json::obj(vec![("history", Json::s(&lg)), ("note", Json::s(note)), ("output_hex_head", Json::s(&hex_short(&out, 64))), ("plain_len", Json::u(plain.len()))]);
+            let r = ref_inflate(&out, Opts::zlib());
+            if !r.verdict.is_complete() || r.out != plain {
+                rep.violation("C11:reuse:output-invalid", format!("stream {} of a reused compressor does not decode to its input: {:?} ({})", si + 1, r.verdict, cfg.describe()), det("reuse"));
+                return;
+            }
+            window_oracle(rep, &cfg, &out, &plain, &det, true);
+        }
+        c.reset();
+        log += "reset(); ";
+    }
+}
+
 pub fn run(ctx: &Ctx, rep: &mut Report) {
     let n = ctx.n(48_000, 2_000_000);
     let n_lc = ctx.n(6000, 200_000);
-    for k in ctx.cases(n + n_lc) {
+    let n_ru = ctx.n(4400, 132_000);
+    for k in ctx.cases(n + n_lc + n_ru) {
         rep.cur_case = k;
         crate::ctx::begin_case(k);
         let mut rng = ctx.rng("case", k);
+        if k >= n + n_lc {
+            reuse_after_reset(rep, &mut rng, k - n - n_lc);
+            continue;
+        }
         if k >= n {
             level_change(rep, &mut rng);
             continue;
